@@ -160,6 +160,25 @@ def body_line(ctx, case):
     if unique_best:
         ctx.check(abs(nums["page_conf"] - min(runs)) < 1e-5, "line_confidence_not_min_of_run_maxima",
                   lambda: "got %r want %r; " % (nums["page_conf"], min(runs)) + desc())
+    # the confidence PageParser leaves on the line is that of the logits the line carries *now*: a line that already has a
+    # confidence (a page read from PAGE XML with conf values, a second pass, a page that went through the ALTO export) and
+    # then gets logits must not keep the stale value
+    from pero_ocr.core.layout import PageLayout, RegionLayout
+    from pero_ocr.document_ocr.page_parser import PageParser
+    pp = object.__new__(PageParser)
+    pp.run_layout_parser = pp.run_line_cropper = pp.run_ocr = pp.run_decoder = False
+    pp.filter_confident_lines_threshold = -1
+    page = PageLayout(id="p", page_size=(100, 100))
+    reg = RegionLayout("r", np.asarray([[0, 0], [100, 0], [100, 100], [0, 100]]))
+    reg.lines = [line]
+    page.regions = [reg]
+    stale = (None, 0.25, 1.0, 0.0)[case["seed"] % 4]
+    line.transcription_confidence = stale
+    ctx.must("page_parser_raises", pp.process_page, None, page)
+    got_pc = line.transcription_confidence
+    ctx.check(got_pc is not None and abs(float(got_pc) - nums["page_conf"]) < 1e-9, "page_parser_keeps_a_stale_line_confidence",
+              lambda: "line carried %r before, PageParser left %r, the line's logits give %r; " % (stale, got_pc, nums["page_conf"]) + desc())
+    line.transcription_confidence = None
     # shift invariance (fully stored matrices)
     if case["full"]:
         rs = np.random.RandomState(case["shifts_seed"])
